@@ -8,7 +8,7 @@ A maintainer can compute a decision in one place and act on it in another:
 
 is the same program as the `match` with the stores in its arms.  Path-insensitive rules (dominance, must-pass-through, reachability)
 see a join between the decision and the action and lose the connection.  This pass unfolds the control-flow graph over the *known
-values of steering locals*: bool locals / tuple fields and enum-variant tags that (a) some `switchInt` of the body decides on and (b)
+values of steering locals*: bool locals / tuple fields and variant tags of the crate's own enums that (a) some `switchInt` of the body decides on and (b)
 receive constants (or copies / `!` / `|` / `&` of such) somewhere.  A node of the unfolded graph is (block, facts about the live
 steering keys); a switch whose operand is known keeps only the taken edge, an unknown bool switch refines the fact on its edges.  The
 result is ordinary MIR facts (blocks cloned, terminators retargeted); the first state reached for a block keeps the block's id, so
@@ -178,6 +178,14 @@ class _Split:
         self.R = R
         self.Rl = {(k if isinstance(k, int) else k[0]) for k in R}
 
+    def _crate_enum(self, adt):
+        if not adt or (adt or '').split('::')[0] in ('std', 'core', 'alloc'):
+            return False
+        if adt in self.adts:
+            return True
+        tail = adt.split('::')[-1]
+        return sum(1 for k in self.adts if k.split('::')[-1] == tail) == 1
+
     def has_constant_source(self):
         """some relevant key receives a constant / a variant aggregate - otherwise there is nothing to split on"""
         for bl in self.blocks:
@@ -191,7 +199,7 @@ class _Split:
                 if dk in self.R:
                     if rv['k'] == 'use' and _const_bool(rv['op']) is not None:
                         return True
-                    if rv['k'] == 'aggr' and rv.get('kind') == 'adt' and rv.get('variant'):
+                    if rv['k'] == 'aggr' and rv.get('kind') == 'adt' and rv.get('variant') and self._crate_enum(rv.get('adt')):
                         return True
                 if isinstance(dk, int) and rv['k'] == 'aggr' and rv.get('kind') == 'tuple':
                     for i, o in enumerate(rv.get('ops') or []):
@@ -332,7 +340,9 @@ class _Split:
                     vv = self._val(o, f)
                     if vv is not None:
                         newf[(dk, i)] = vv
-            elif rv['k'] == 'aggr' and rv.get('kind') == 'adt' and rv.get('variant'):
+            elif rv['k'] == 'aggr' and rv.get('kind') == 'adt' and rv.get('variant') and self._crate_enum(rv.get('adt')):
+                # only enums of the crate itself steer control (`enum Outcome { Keep, Close }`); Option / Result / Poll values are data - splitting on
+                # them would duplicate everything between `let r = match .. { .. => Ok(x), .. => Err(e) }` and the later `match r`
                 v = ('v', rv.get('adt'), rv['variant'])
             if isinstance(dk, int):
                 kill_local(dk)
